@@ -470,7 +470,12 @@ func (s *Writer) loadSnapshot(epoch uint64) (*Snapshot, error) {
 		dataReader = crcReader
 	}
 
-	_, err = snapshot.ReadFrom(dataReader)
+	bytesRead, err := snapshot.ReadFrom(dataReader)
+	if err == nil && bytesRead != int64(data.Len()-crcWidth) {
+		// the encoding ended before the checksum trailer: not a snapshot file
+		err = fmt.Errorf("error loading snapshot %d: %d unexpected bytes after the segment list",
+			epoch, int64(data.Len()-crcWidth)-bytesRead)
+	}
 	if err != nil {
 		if closer != nil {
 			_ = closer.Close()
